@@ -84,9 +84,14 @@ check("C10", "model_checking",
 check("C11", "model_checking",
       "SyncStore.tla models the per-height identity-diff store under block insertion and fork switches (FollowerRoot checked by TLC); on "
       "real histories with fork switches followers replay, from the genesis identity state, every identity diff the node serves "
-      "(transported as bytes) through the real AddDiff and compare each root with the canonical header (clause FollowerRoot). Snapshot "
-      "export/import part: see level_note.",
-      _CHAIN_NOTE + "; snapshot corruption part (C11b) is not built in this revision: only the identity-diff half of the property is decided",
+      "(transported as bytes) through the real AddDiff and compare each root with the canonical header (clause FollowerRoot). Snapshots: Snapshot.tla models the archive, one fault per "
+      "behaviour (flip in a node record / tar header / padding, drop / duplicate / swap blocks, truncate, append garbage) and the "
+      "importer with its root check (ImportAllOrNothing, CleanRoundTrip checked by TLC); every exported fault case is applied at "
+      "seeded byte positions to REAL archives (chain state, 12 000-account state = 3 archive blocks with contract values incl. empty "
+      "ones, small state) and imported into a fresh real StateDB; TLC validates accepted => same root and contents, refused => "
+      "empty target, never a panic.",
+      _CHAIN_NOTE + "; snapshot byte positions are seeded samples inside each fault region (4 per case quick, 60 thorough), StateDB "
+      "archives only (the identity-state archive uses the same ReadTreeFrom2)",
       "TLA+ diff-store model + follower replay on real chains + TLC trace validation", "DESIGN.md#c11")
 
 HOOK_COMMITS += ["075278ac"]
